@@ -1,17 +1,28 @@
 #!/usr/bin/env python3
-"""Prints the brief given to an independent sub-agent for one property (nothing from /verif except the property record).
-   tools/seed_prompt.py C03 E F  -> prompt text; worktree /tmp/seedwt6/C03 ; output dir /tmp/seed6-out/C03/{E,F}"""
-import json, sys
+"""Prints the brief given to an independent sub-agent for one property (nothing from /verif except the property record
+   and one-line summaries of the changes earlier agents wrote for it, to steer away from repeats).
+   tools/seed_prompt.py C03 K L ["extra avoid text"]  -> prompt text; worktree $SEED_WT/C03 ; output dir $SEED_OUT/C03/{K,L}
+   (SEED_WT default /tmp/seedwt7, SEED_OUT default /tmp/seed7-out)"""
+import json, sys, os, glob
 pid, va, vb = sys.argv[1], sys.argv[2], sys.argv[3]
+WT = os.environ.get("SEED_WT", "/tmp/seedwt7")
+OUT = os.environ.get("SEED_OUT", "/tmp/seed7-out")
 prop = None
 for ln in open('/verif/properties.jsonl'):
     p = json.loads(ln)
     if p['id'] == pid:
         prop = p
 avoid = sys.argv[4] if len(sys.argv) > 4 else ""
-print(f"""You are helping to evaluate a verification framework for the Go project zmap/zlint (an X.509 certificate / CRL / OCSP linter). Your job is to write two *regressions*: realistic changes to zlint's source that break one stated semantic property while still compiling and passing zlint's whole existing test suite.
+earlier = []
+for mf in sorted(glob.glob('/verif/seeded/%s-*/meta.json' % pid)):
+    m = json.load(open(mf))
+    t = " ".join((m.get("breaks") or "").split())
+    earlier.append("(%s) %s" % (", ".join(os.path.basename(f) for f in (m.get("files") or [])[:2]), t[:230]))
+if earlier:
+    avoid = (avoid + " " if avoid else "") + " ;; ".join(earlier)
+text = f"""You are helping to evaluate a verification framework for the Go project zmap/zlint (an X.509 certificate / CRL / OCSP linter). Your job is to write two *regressions*: realistic changes to zlint's source that break one stated semantic property while still compiling and passing zlint's whole existing test suite.
 
-You work ONLY in your own scratch git worktree of the repository: {'/tmp/seedwt6/'+pid}  (Go module in {'/tmp/seedwt6/'+pid}/v3). Do not read or touch /repo or /verif, and do not look anywhere else on this machine for hints - your work must be independent. There is no network. Every shell call that runs go needs:
+You work ONLY in your own scratch git worktree of the repository: {WT+'/'+pid}  (Go module in {WT+'/'+pid}/v3). Do not read or touch /repo or /verif, and do not look anywhere else on this machine for hints - your work must be independent. There is no network. Every shell call that runs go needs:
   export GOFLAGS=-mod=mod GOPROXY=off GOSUMDB=off GOTOOLCHAIN=local
 (do not commit go.mod/go.sum changes into your patches).
 
@@ -27,11 +38,18 @@ What to produce: TWO different changes (call them {va} and {vb}), each of which
   * comes with a demonstration: a Go test file (name it zz_demo_test.go; say in which package directory under v3 it must be placed) that FAILS with your change applied and PASSES on the unchanged tree. The demonstration must be deterministic if at all possible (if it depends on a schedule, make it loop until it is reliable, and say so).
 
 For each variant V in {{{va}, {vb}}} write these files (create the directories):
-  /tmp/seed6-out/{pid}/V/patch.diff      - `git diff` of your change only (from the worktree root, so paths start with v3/...), applying cleanly with `git apply` to the pristine worktree HEAD. It must NOT contain the demo test.
-  /tmp/seed6-out/{pid}/V/demo/zz_demo_test.go   - the demonstration
-  /tmp/seed6-out/{pid}/V/demo/RUN.txt    - first line: where to copy the test, in the exact form "Copy zz_demo_test.go to {{WT}}/v3/<dir>/zz_demo_test.go" (or {{WT}}/v3/zz_demo_test.go for the module root package); then a line containing the exact command, starting with `go test -vet=off -count=1 -run <TestName> <pkg>` to be run from {{WT}}/v3.
-  /tmp/seed6-out/{pid}/V/meta.json       - JSON object with keys: "property" ("{pid}"), "summary" (what you changed and why it breaks the property), "needs" (what precisely is needed for the breakage to manifest and why the existing tests do not see it), "files" (list of changed files), "demo" (what the demonstration does).
+  {OUT}/{pid}/V/patch.diff      - `git diff` of your change only (from the worktree root, so paths start with v3/...), applying cleanly with `git apply` to the pristine worktree HEAD. It must NOT contain the demo test.
+  {OUT}/{pid}/V/demo/zz_demo_test.go   - the demonstration
+  {OUT}/{pid}/V/demo/RUN.txt    - first line: where to copy the test, in the exact form "Copy zz_demo_test.go to {{WT}}/v3/<dir>/zz_demo_test.go" (or {{WT}}/v3/zz_demo_test.go for the module root package); then a line containing the exact command, starting with `go test -vet=off -count=1 -run <TestName> <pkg>` to be run from {{WT}}/v3.
+  {OUT}/{pid}/V/meta.json       - JSON object with keys: "property" ("{pid}"), "summary" (what you changed and why it breaks the property), "needs" (what precisely is needed for the breakage to manifest and why the existing tests do not see it), "files" (list of changed files), "demo" (what the demonstration does).
 
 Procedure for each variant: make the change, build, vet, run the whole suite (must pass), add the demo and see it fail, save `git diff` (without the demo file) as patch.diff, then `git stash`/`git checkout -- .` to the pristine tree and see the demo pass, remove the demo file, and leave the worktree clean (git status empty) before starting the next variant and when you finish. Verify that patch.diff applies cleanly to the clean tree with `git apply --check`.
 
-Report back briefly: for each variant one paragraph (what, needs, confirmation you ran). If you could only produce one, say so.""")
+Report back briefly: for each variant one paragraph (what, needs, confirmation you ran). If you could only produce one, say so."""
+if vb == "-":
+    text = (text.replace("write two *regressions*: realistic changes", "write one *regression*: a realistic change")
+            .replace(f"What to produce: TWO different changes (call them {va} and {vb}), each of which", f"What to produce: ONE change (call it {va}), which")
+            .replace(f" Prefer changes in different files / mechanisms for {va} and {vb}, touching different aspects of the property.", "")
+            .replace(f"For each variant V in {{{va}, {vb}}} write these files", f"For the variant V = {va} write these files")
+            .replace("Procedure for each variant:", "Procedure:"))
+print(text)
